@@ -66,6 +66,27 @@ func (e *Env) Flow(f func(c *flow.Ctx)) {
 	}
 }
 
+// FlowAs runs flow rules and files their obligations under other rule names (one engine rule serving two properties).
+func (e *Env) FlowAs(rename map[string]string, f func(c *flow.Ctx)) {
+	e.C.Out = nil
+	f(e.C)
+	for _, x := range e.C.Drain() {
+		pos := ""
+		if x.Pos.IsValid() {
+			pos = shortPos(x.Pos.Filename, x.Pos.Line)
+		}
+		rule := x.Rule
+		construct := x.Construct
+		if r, ok := rename[rule]; ok {
+			if construct == "" {
+				construct = strings.TrimPrefix(rule[strings.Index(rule, ".")+1:], ".")
+			}
+			rule = r
+		}
+		e.S.Add(core.Ob{Rule: rule, Site: x.Site, Construct: construct, Status: core.Status(x.Kind), Msg: x.Msg, Pos: pos, Witness: x.Witness})
+	}
+}
+
 func shortPos(file string, line int) string {
 	if i := strings.LastIndex(file, "/"); i >= 0 {
 		if j := strings.LastIndex(file[:i], "/"); j >= 0 {
